@@ -47,7 +47,7 @@ def cases(tier, seed):
                 for chain in (0, 1):
                     out.append({'id': '%s(%s, %s/%d)' % (pred, ftxt(f), ftxt(l), chain), 'fam': pred, 'F': f, 'L': l, 'chain': chain})
     for arity in range(0, 5):
-        for pat in ('exact', 'other', 'prefix', 'prefix-miss', 'star-only', 'var', 'boundvar', 'int'):
+        for pat in ('exact', 'other', 'prefix', 'prefix-miss', 'star-only', 'var', 'boundvar', 'int', 'bound-prefix', 'bound-prefix-miss', 'bound-other', 'bound-star', 'bound-int'):
             for nargs in (2, 3):
                 for chain in (0, 1):
                     out.append({'id': 'functor(arity %d, %s, %d args, chain %d)' % (arity, pat, nargs, chain), 'fam': 'functor', 'arity': arity, 'pat': pat, 'nargs': nargs, 'chain': chain})
@@ -188,6 +188,11 @@ def run_filter(drv, case):
     return {'tags': tags, 'note': desc}
 
 
+def norm(p):
+    if p[0] == 'atom' and not isinstance(p[1], str) and all(isinstance(x, str) for x in p[1]): return ('atom', ''.join(p[1]))
+    return p
+
+
 def run_functor(drv, case):
     m = drv.m
     env = B.Env(drv, first_id=10)
@@ -210,8 +215,19 @@ def run_functor(drv, case):
     elif pat == 'var': p = out; expect_bind = name
     elif pat == 'boundvar': env.bind(out, name); p = out
     elif pat == 'int': p = ('int', 1); expect_ok = False
+    # the pattern given through a variable that is already bound: the same outcome as the pattern written in place
+    elif pat == 'bound-prefix': env.bind(out, norm(('atom', (n0, '*')))); p = out
+    elif pat == 'bound-star': env.bind(out, ('atom', '*')); p = out
+    elif pat == 'bound-other': env.bind(out, norm(('atom', tuple(name[1]) + ('z',)))); p = out; expect_ok = False
+    elif pat == 'bound-int': env.bind(out, ('int', 1)); p = out; expect_ok = False
+    elif pat == 'bound-prefix-miss':
+        q = B.sym_char(m, 'pm', 97, 122)
+        if R.eq(m, q, n0): raise PathInfeasible()
+        env.bind(out, norm(('atom', (q, '*')))); p = out; expect_ok = False
     if p[0] == 'atom' and not isinstance(p[1], str) and all(isinstance(x, str) for x in p[1]): p = ('atom', ''.join(p[1]))
     ar = env.var('$A')
+    if case['nargs'] == 3 and case['chain'] == 1 and pat in ('exact', 'prefix', 'var'):
+        env.bind(ar, ('int', case['arity']))         # the arity through a bound variable
     terms = (ct, p) if case['nargs'] == 2 else (ct, p, ar)
     kb = drv.kb([])
     before = drv.dumpss(env.ss)
@@ -239,7 +255,7 @@ def run_functor(drv, case):
         if case['nargs'] == 3:
             rw, _ = B.run_goal(drv, kb, ('gb', 'functor', (ct, p, ('int', case['arity'] + 1))), env.ss)
             if rw.h is not None: raise Violation('functor-wrong-arity', desc + ': succeeds with a wrong arity')
-    tags = ['functor'] + (['prefix-pattern'] if pat.startswith('prefix') or pat == 'star-only' else [])
+    tags = ['functor'] + (['prefix-pattern'] if 'prefix' in pat or 'star' in pat else [])
     return {'tags': tags, 'note': desc}
 
 
